@@ -754,6 +754,42 @@ class Exec:
         self.res.forks += len(vals) - 1
         raise ForkReq(states)
 
+    def real_f2i(self, st, x):
+        """float->int conversion in a real reading: truncation toward zero, decided by case
+        split over the small integers -1..8 (loop counts); anything else ends the path as an
+        unwinding failure (inconclusive)."""
+        v = x.v
+        key = tid(v)
+        if key in st.conc:
+            return st.conc[key]
+        cases = []
+        for k in range(-1, 9):
+            if k > 0:
+                c = z3.And(v >= k, v < k + 1)
+            elif k == 0:
+                c = z3.And(v > -1, v < 1)
+            else:
+                c = z3.And(v <= k, v > k - 1)
+            if self.sat(st, c) != 'unsat':
+                cases.append((k, c))
+        other = z3.Or(v >= 9, v <= -2)
+        if self.sat(st, other) != 'unsat':
+            s2 = st.fork()
+            s2.pc.append(other)
+            self.add_obligation(s2, 'UNWIND: float->int conversion outside [-1, 8] in a real reading', None, kind='unwind')
+            self.res.unwind += 1
+        if not cases:
+            raise PathEnd('infeasible')
+        states = []
+        for i, (k, c) in enumerate(cases):
+            s2 = st if i == len(cases) - 1 else st.fork()
+            s2.conc[key] = k
+            s2.model = None
+            s2.pc.append(c)
+            states.append(s2)
+        self.res.forks += len(cases) - 1
+        raise ForkReq(states)
+
     def signed_val(self, v, leaf):
         return v
 
@@ -1850,6 +1886,8 @@ def convert(ex, st, x, xt, t):
         if xu.is_int and u.is_float:
             return fpops.i2f(x, xu.bits, not xu.unsigned, u.bits)
         if xu.is_float and u.is_int:
+            if fpops.is_real(x) and not fpops.is_conc(x):
+                return ex.real_f2i(st, x)
             return fpops.f2i(x, u.bits, not u.unsigned)
         if xu.is_float and u.is_float:
             return fpops.fconv(x, u.bits)
